@@ -35,9 +35,9 @@ func (pipeline) Runs(tier string) int64 {
 
 func (pipeline) Meta() core.EngineMeta {
 	return core.EngineMeta{
-		Rule: "Seeded histories of successful Add/Remove/SetPCRPID/WriteTables/WriteData calls (payload lengths biased to k*184 -/+ header/AF boundaries, >65535 occasionally; every PES optional-header combination the writer supports; first-packet adaptation fields up to 'exactly fills the packet' and 'leaves less room than the PES header'; explicit and automatic PIDs, removal and re-adding) on the real Muxer; its bytes go through a SimReader (seeded chunk plan, seekable/plain/bufio) into the real Demuxer; a third of the runs relay the demuxed structures into a second Muxer and demux again. Distinct = abstract fingerprint (multiset of per-unit classes: payload-boundary class, header size class, AF class, packets-per-unit class, relay flag); non-trivial = at least one unit delivered.",
-		Real: []string{"astits.Muxer", "astits.Demuxer", "everything below both", "bufio.Reader when the reader kind is bufio"},
-		Stub: []string{"SimWriter (fault-free)", "SimReader (fault-free, short reads per plan)", "MuxModel log of accepted units and emitted tables", "refts decoder (locates table packets in the writer log)"},
+		Rule:       "Seeded histories of successful Add/Remove/SetPCRPID/WriteTables/WriteData calls (payload lengths biased to k*184 -/+ header/AF boundaries, >65535 occasionally; every PES optional-header combination the writer supports; first-packet adaptation fields up to 'exactly fills the packet' and 'leaves less room than the PES header'; explicit and automatic PIDs, removal and re-adding) on the real Muxer; its bytes go through a SimReader (seeded chunk plan, seekable/plain/bufio) into the real Demuxer; a third of the runs relay the demuxed structures into a second Muxer and demux again. Distinct = abstract fingerprint (multiset of per-unit classes: payload-boundary class, header size class, AF class, packets-per-unit class, relay flag); non-trivial = at least one unit delivered.",
+		Real:       []string{"astits.Muxer", "astits.Demuxer", "everything below both", "bufio.Reader when the reader kind is bufio"},
+		Stub:       []string{"SimWriter (fault-free)", "SimReader (fault-free, short reads per plan)", "MuxModel log of accepted units and emitted tables", "refts decoder (locates table packets in the writer log)"},
 		FaultKinds: []string{"short-reads", "af-only-split", "readd-pid", "relay"},
 		Assumptions: []string{
 			"conformant arguments only: OptionalHeader present iff the stream id takes one, Extension2Data <= 127 bytes, TransportPrivateDataLength = len(TransportPrivateData), ES PIDs in 0x0020..0x1FFE minus the PMT PID, no discontinuity_indicator requested",
